@@ -120,7 +120,7 @@ def check(case, res, k, sig):
     inj = res.get("inject")
     summ = obs.brief()
     summ["k"] = k
-    if res["status"] == "deadlock":
+    if res["status"] in ("deadlock", "livelock"):
         v.append(("deadlock_after_abort" if inj else "deadlock", "run never returns (%s)" % res.get("detail")))
         return Outcome(v, labels, True, summ)
     if inj is None:
